@@ -34,12 +34,16 @@ Proof. unfold ind. destruct (x =? a); lia. Qed.
 Lemma ind_nonneg x a v : 0 <= v -> 0 <= ind x a v.
 Proof. unfold ind. destruct (x =? a); lia. Qed.
 
+Ltac ind_case x y :=
+  let e := fresh "e" in
+  destruct (Z.eq_dec x y) as [e|e];
+  [ first [subst x | subst y | rewrite ?e in *]; rewrite ?ind_same in *
+  | rewrite ?(ind_diff x y) in * by lia ].
 Ltac ind_cases :=
-  unfold ind in *;
   repeat match goal with
-  | |- context [ ?x =? ?y ] => let E := fresh "E" in destruct (x =? y) eqn:E
-  | H : context [ ?x =? ?y ] |- _ => let E := fresh "E" in destruct (x =? y) eqn:E
-  end; zb; subst; try lia.
+  | |- context [ind ?x ?y _] => ind_case x y
+  | H : context [ind ?x ?y _] |- _ => ind_case x y
+  end; try lia.
 
 (* ------------------------------------------------------------------------------------------ *)
 (* sums over a finite map *)
@@ -201,13 +205,12 @@ Record eff (c pr : Z) (st st' : state) (lc lp x s uc up uf : Z) : Prop := {
   e_tc : tot_ccoll st' = tot_ccoll st - uc;
   e_tp : tot_pcoll st' = tot_pcoll st - up;
   e_tf : tot_fee st' = tot_fee st - uf;
-  e_frame : frame st st';
-  e_pend : pending st' = pending st
+  e_frame : frame st st'
 }.
 
 Lemma eff_refl c pr st : eff c pr st st 0 0 0 0 0 0 0.
 Proof.
-  constructor; try lia; try reflexivity.
+  constructor; try lia.
   - intros a. rewrite !ind_0. lia.
   - intros a. replace (0 - 0) with 0 by lia. rewrite !ind_0. lia.
   - apply frame_refl.
@@ -218,16 +221,12 @@ Lemma eff_trans c pr st st1 st2 lc lp x s uc up uf lc' lp' x' s' uc' up' uf' :
   eff c pr st1 st2 lc' lp' x' s' uc' up' uf' ->
   eff c pr st st2 (lc + lc') (lp + lp') (x + x') (s + s') (uc + uc') (up + up') (uf + uf').
 Proof.
-  intros [] []. constructor; try lia; try congruence.
+  intros [] []. constructor; try lia.
   - intros a. rewrite e_L1, e_L0, !ind_add. lia.
   - intros a. rewrite e_E1, e_E0. replace (x + x' - (s + s')) with ((x - s) + (x' - s')) by lia.
     rewrite !ind_add. lia.
   - eapply frame_trans; eauto.
 Qed.
-
-(* change of the pending set only *)
-Lemma eff_set_pending c pr st v : eff c pr st (set_pending st v) 0 0 0 0 0 0 0 -> True.
-Proof. trivial. Qed.
 
 Lemma L_set_pending st v a : L (set_pending st v) a = L st a.
 Proof. reflexivity. Qed.
@@ -271,10 +270,11 @@ Lemma unlock_client c pr st amt r :
   0 <= amt -> amt <= L st c ->
   exists st', unlock_balance st c amt r = Ok st' tt /\
     eff c pr st st' amt 0 0 0 (match r with RCcoll => amt | _ => 0 end)
-        (match r with RPcoll => amt | _ => 0 end) (match r with RFee => amt | _ => 0 end).
+        (match r with RPcoll => amt | _ => 0 end) (match r with RFee => amt | _ => 0 end) /\
+    pending st' = pending st.
 Proof.
   intros H0 H1. destruct (unlock_ok st c amt r H0 H1) as (st' & Hu & HL & HE & Hf & Hp & Htc & Htp & Htf).
-  exists st'. split; [exact Hu|]. constructor; auto.
+  exists st'. split; [exact Hu|]. split; [|exact Hp]. constructor; auto.
   - intros a. rewrite HL, ind_0. lia.
   - intros a. unfold E. rewrite HE. replace (0 - 0) with 0 by lia. rewrite !ind_0. lia.
   - rewrite HE. lia.
@@ -284,10 +284,11 @@ Lemma unlock_provider c pr st amt r :
   0 <= amt -> amt <= L st pr ->
   exists st', unlock_balance st pr amt r = Ok st' tt /\
     eff c pr st st' 0 amt 0 0 (match r with RCcoll => amt | _ => 0 end)
-        (match r with RPcoll => amt | _ => 0 end) (match r with RFee => amt | _ => 0 end).
+        (match r with RPcoll => amt | _ => 0 end) (match r with RFee => amt | _ => 0 end) /\
+    pending st' = pending st.
 Proof.
   intros H0 H1. destruct (unlock_ok st pr amt r H0 H1) as (st' & Hu & HL & HE & Hf & Hp & Htc & Htp & Htf).
-  exists st'. split; [exact Hu|]. constructor; auto.
+  exists st'. split; [exact Hu|]. split; [|exact Hp]. constructor; auto.
   - intros a. rewrite HL, ind_0. lia.
   - intros a. unfold E. rewrite HE. replace (0 - 0) with 0 by lia. rewrite !ind_0. lia.
   - rewrite HE. lia.
@@ -296,7 +297,7 @@ Qed.
 (* transfer_balance *)
 Lemma transfer_ok c pr st x :
   0 <= x -> x <= L st c -> x <= E st c -> 0 <= E st pr ->
-  exists st', transfer_balance st c pr x = Ok st' tt /\ eff c pr st st' x 0 x 0 0 0 x.
+  exists st', transfer_balance st c pr x = Ok st' tt /\ eff c pr st st' x 0 x 0 0 0 x /\ pending st' = pending st.
 Proof.
   intros H0 H1 H2 H3. unfold transfer_balance.
   destruct (x <? 0) eqn:E1; zb; [lia|].
@@ -305,7 +306,7 @@ Proof.
   destruct (unlock_ok st c x RFee H0 H1) as (st1 & Hu & HL & HE & Hf & Hp & Htc & Htp & Htf).
   rewrite Hu. cbn [bind].
   rewrite bt_add_ok; [|rewrite bt_get_upd; unfold ind; destruct (pr =? c); lia].
-  eexists; split; [reflexivity|].
+  eexists; split; [reflexivity|]. split; [|exact Hp].
   constructor; cbn.
   - intros a. change (L st1 a = L st a - ind a c x - ind a pr 0). rewrite HL, ind_0. lia.
   - intros a. unfold E. cbn. rewrite !bt_get_upd. replace (x - 0) with x by lia.
@@ -314,7 +315,6 @@ Proof.
   - exact Htc. - replace (tot_pcoll st - 0) with (tot_pcoll st) by lia. lia.
   - exact Htf.
   - destruct Hf. constructor; cbn; assumption.
-  - exact Hp.
 Qed.
 
 (* slash_balance *)
@@ -322,7 +322,8 @@ Lemma slash_ok c pr st s r :
   0 <= s -> s <= L st pr -> s <= E st pr ->
   exists st', slash_balance st pr s r = Ok st' tt /\
     eff c pr st st' 0 s 0 s (match r with RCcoll => s | _ => 0 end)
-        (match r with RPcoll => s | _ => 0 end) (match r with RFee => s | _ => 0 end).
+        (match r with RPcoll => s | _ => 0 end) (match r with RFee => s | _ => 0 end) /\
+    pending st' = pending st.
 Proof.
   intros H0 H1 H2. unfold slash_balance.
   destruct (s <? 0) eqn:E1; zb; [lia|].
@@ -330,7 +331,7 @@ Proof.
   unfold E in *. rewrite bt_add_ok by lia.
   destruct (unlock_ok (set_escrow st (bt_upd (escrow st) pr (- s))) pr s r H0) as
     (st1 & Hu & HL & HE & Hf & Hp & Htc & Htp & Htf); [exact H1|].
-  exists st1. split; [exact Hu|].
+  exists st1. split; [exact Hu|]. split; [|exact Hp].
   constructor.
   - intros a. rewrite HL. change (L (set_escrow st _) a) with (L st a). rewrite ind_0. lia.
   - intros a. unfold E. rewrite HE. cbn. rewrite bt_get_upd. replace (0 - s) with (- s) by lia.
@@ -338,7 +339,6 @@ Proof.
   - rewrite HE. cbn. rewrite bsum_upd. lia.
   - exact Htc. - exact Htp. - exact Htf.
   - destruct Hf. constructor; cbn in *; assumption.
-  - exact Hp.
 Qed.
 
 (* maybe_lock_balance *)
@@ -386,4 +386,57 @@ Proof.
   split; [exact Hfr|].
   split. { cbn. congruence. }
   cbn. repeat split; lia.
+Qed.
+
+Lemma eff_cast c pr st st' lc lp x s uc up uf lc' lp' x' s' uc' up' uf' :
+  eff c pr st st' lc lp x s uc up uf ->
+  lc = lc' -> lp = lp' -> x = x' -> s = s' -> uc = uc' -> up = up' -> uf = uf' ->
+  eff c pr st st' lc' lp' x' s' uc' up' uf'.
+Proof. intros; subst; assumption. Qed.
+
+Lemma eff_remove_pending c pr st p : eff c pr st (remove_pending st p) 0 0 0 0 0 0 0.
+Proof.
+  constructor; try (cbn; lia).
+  - intros a. rewrite !ind_0. change (L (remove_pending st p) a) with (L st a). lia.
+  - intros a. replace (0 - 0) with 0 by lia. rewrite !ind_0. change (E (remove_pending st p) a) with (E st a). lia.
+  - constructor; reflexivity.
+Qed.
+
+Lemma transfer_opt c pr st x :
+  0 <= x -> x <= L st c -> x <= E st c -> 0 <= E st pr ->
+  exists st', (if 0 <? x then transfer_balance st c pr x else Ok st tt) = Ok st' tt /\
+              eff c pr st st' x 0 x 0 0 0 x /\ pending st' = pending st.
+Proof.
+  intros H0 H1 H2 H3. destruct (0 <? x) eqn:Ex; zb.
+  - now apply transfer_ok.
+  - assert (x = 0) as -> by lia. exists st. split; [reflexivity|]. split; [apply eff_refl|reflexivity].
+Qed.
+
+(* success of a primitive on an arbitrary state leaves the deal tables alone *)
+Lemma unlock_frame st a amt r st' u : unlock_balance st a amt r = Ok st' u -> frame st st' /\ pending st' = pending st.
+Proof.
+  intros H. destruct (unlock_inv _ _ _ _ _ _ H) as [H0 H1].
+  destruct (unlock_ok st a amt r H0 H1) as (st2 & Hu & _ & _ & Hf & Hp & _).
+  rewrite H in Hu. injection Hu as <-. auto.
+Qed.
+
+Lemma transfer_frame st c pr x st' u : transfer_balance st c pr x = Ok st' u -> frame st st' /\ pending st' = pending st.
+Proof.
+  unfold transfer_balance. destruct (x <? 0); [discriminate|].
+  destruct (bt_must_subtract (escrow st) c x); [|discriminate].
+  destruct (unlock_balance st c x RFee) as [st1 u1|] eqn:Hu; [|discriminate]. cbn [bind].
+  destruct (bt_add g pr x); [|discriminate]. intros [= <- _].
+  apply unlock_frame in Hu as [[] Hp]. split; [constructor; cbn; assumption|exact Hp].
+Qed.
+
+Lemma slash_frame st a s r st' u : slash_balance st a s r = Ok st' u -> frame st st' /\ pending st' = pending st.
+Proof.
+  unfold slash_balance. destruct (s <? 0); [discriminate|].
+  destruct (bt_must_subtract (escrow st) a s); [|discriminate].
+  intros Hu. apply unlock_frame in Hu as [[] Hp]. split; [constructor; cbn in *; assumption|exact Hp].
+Qed.
+
+Lemma bsum_nonneg t : (forall a, 0 <= bt_get t a) -> 0 <= bsum t.
+Proof.
+  intros Hnn. apply msum_nonneg. intros a z Ha. specialize (Hnn a). unfold bt_get in Hnn. now rewrite Ha in Hnn.
 Qed.
